@@ -157,7 +157,9 @@ pub fn run(ctx: &mut Ctx) {
             pf(Ty::Timestamp, "DD"), pf(Ty::Timestamp, "HH24:MI"), pf(Ty::Timestamp, "MM-DD HH24"), pf(Ty::Timestamp, ""), pf(Ty::Timestamp, "DDD"),
             pf(Ty::OracleDate, "DD"), pf(Ty::OracleDate, "HH24:MI"), pf(Ty::OracleDate, "YYYY"), pf(Ty::OracleDate, ""),
         ];
-        let py: Vec<P> = vec![pf(Ty::Date, "Y-MM-DD"), pf(Ty::Date, "YY-MM-DD"), pf(Ty::Date, "YYY-MM-DD"), pf(Ty::Timestamp, "YY-MM-DD HH24"), pf(Ty::OracleDate, "YYY/MM/DD")];
+        let py: Vec<P> = vec![pf(Ty::Date, "Y-MM-DD"), pf(Ty::Date, "YY-MM-DD"), pf(Ty::Date, "YYY-MM-DD"), pf(Ty::Timestamp, "YY-MM-DD HH24"), pf(Ty::OracleDate, "YYY/MM/DD"),
+            // the year field followed by a blank, a dot, a colon (the digits-consumed count must not include the separator)
+            pf(Ty::Date, "Y MM DD"), pf(Ty::Date, "YY MM DD"), pf(Ty::Date, "YYY MM DD"), pf(Ty::Date, "YY.MM.DD"), pf(Ty::Date, "YY:MM:DD"), pf(Ty::Date, "YY  MM  DD")];
         let ph: Vec<P> = vec![pf(Ty::Timestamp, "YYYY-MM-DD HH12"), pf(Ty::Timestamp, "YYYY-MM-DD HH12 AM"), pf(Ty::OracleDate, "YYYY-MM-DD HH12:MI"), pf(Ty::Timestamp, "DD HH12")];
         let complete: Vec<(P, &str, i64)> = vec![
             (pf(Ty::Date, "YYYY-MM-DD"), "2024-02-29", cal.day_number(2024, 2, 29) as i64),
@@ -199,6 +201,10 @@ pub fn run(ctx: &mut Ctx) {
                     let (text, tod) = match p.pic {
                         "YY-MM-DD HH24" => (format!("{dg:0w$}-02-28 05", w = n as usize), 5 * US_HOUR),
                         "YYY/MM/DD" => (format!("{dg:0w$}/02/28", w = n as usize), 0),
+                        "Y MM DD" | "YY MM DD" | "YYY MM DD" => (format!("{dg:0w$} 02 28", w = n as usize), 0),
+                        "YY.MM.DD" => (format!("{dg:0w$}.02.28", w = n as usize), 0),
+                        "YY:MM:DD" => (format!("{dg:0w$}:02:28", w = n as usize), 0),
+                        "YY  MM  DD" => (format!("{dg:0w$}  02  28", w = n as usize), 0),
                         _ => (format!("{dg:0w$}-02-28", w = n as usize), 0),
                     };
                     one(acc, idx, "short-year-completion", p, &text, compose(cal, p.ty, y, 2, 28, tod), &c);
@@ -206,7 +212,7 @@ pub fn run(ctx: &mut Ctx) {
                         // a minus sign makes the year negative, whatever the clock completes it with
                         one(acc, idx, "negative-short-year", p, &format!("-{}", text), None, &c);
                     }
-                    if p.ty == Ty::Date && n == 2 && dg == 21 {
+                    if p.pic == "YY-MM-DD" && dg == 21 {
                         // a leading '+' is a permitted spelling of the same two digits
                         one(acc, idx, "short-year-completion-with-plus-sign", p, "+21-02-28", compose(cal, p.ty, y, 2, 28, 0), &c);
                     }
@@ -336,4 +342,7 @@ pub fn run(ctx: &mut Ctx) {
         ctx.machinery_failure("clock ownership: replaying the same (clock, picture, text) configurations gave different observations".into());
     }
     ctx.extra("clock_reads_total_on_main_thread", json!(clock_reads()));
+
+    // hidden state: every ordered pair of clock-dependent calls (each injects its own clock) on a fresh thread against the lone call
+    crate::histpairs::pairwise(ctx, "C18", "parse_with_clock_defaults", crate::histpairs::calls_parse_clock());
 }
